@@ -267,6 +267,37 @@ def r14_4(run):
             run.ob('R14.4', rf, c, 'deprecated remove_from_tor sends DEL_ONION <address without .onion>', ok, slot='deprecated-del', message='remove_from_tor sends %s' % shape_text(sh))
 
 
+def r14_6(run):
+    """port mappings correspond exactly to the requested ports: in _validate_ports every requested entry that is not refused
+    yields exactly one processed mapping (path enumeration over one loop iteration)"""
+    u = run.idx.unit(MOD + '._validate_ports')
+
+    def may_raise(node):
+        # int(<text>) is how the function tells numbers from other forms: its ValueError leg is ordinary control flow here
+        for a in walk_local(node, descend_root=False) if not isinstance(node, FUNC_TYPES) else []:
+            if isinstance(a, ast.Call) and dotted(a.func) == 'int':
+                return ('ValueError',)
+        return None
+    g = cfg_of(u, may_raise=may_raise)
+    loops = [n for n in g.live if n.kind == 'iter' and isinstance(n.ast, ast.For) and dotted(n.ast.iter) == u.params[1]]
+    run.floor('R14.6', 'loops over the requested ports', len(loops), 1)
+    rn = returned_names(u)
+    OUT = rn[0] if len(rn) == 1 else 'processed_ports'
+    k = 0
+    for lp in loops:
+        start = [s_ for lab, s_ in lp.succ if lab == 'body']
+        for p_ in g.paths(start=start[0], stop=lambda n, lp=lp: n is lp, loop_bound=1) if start else []:
+            run.paths_enumerated += 1
+            if p_.exit == 'raise':
+                continue
+            k += 1
+            na = sum(1 for n, _ in p_.steps if n.kind == 'stmt' for a in node_asts(n) if isinstance(a, ast.Call) and dotted(a.func) == OUT + '.append')
+            run.ob('R14.6', u, lp.ast, 'each accepted port entry yields exactly one mapping', na == 1, slot='one-mapping-per-entry',
+                   message='_validate_ports accepts an entry but adds %d mappings for it on the path %s: the ADD_ONION lacks (or repeats) a requested Port=' % (na, p_.describe(8)),
+                   path=p_.describe(10))
+    run.floor('R14.6', 'accepting paths through one loop iteration', k, 4)
+
+
 def r14_5(run):
     """create(): the options travel unchanged from the caller to the service object / helper"""
     for cname, has_auth in (('EphemeralOnionService', False), ('EphemeralAuthenticatedOnionService', True)):
@@ -286,7 +317,7 @@ def r14_5(run):
         add = [c for c in calls_in(cr) if dotted(c.func) == '_add_ephemeral_service']
         onion_names = names_defined_by(cr, lambda v: isinstance(v, ast.Call) and dotted(v.func) == cname)
         ok = len(add) == 1 and len(onion_names) == 1 and [dotted(a) for a in add[0].args[:4]] == ['config', onion_names[0], 'progress', 'version'] and \
-            (dotted(add[0].args[4]) == 'auth' if has_auth else is_none(add[0].args[4]))
+            (len(add[0].args) > 4 and dotted(add[0].args[4]) == 'auth' if has_auth else (len(add[0].args) <= 4 or is_none(add[0].args[4])))
         run.ob('R14.5', cr, cr.node, '%s.create calls the ADD_ONION helper once with its own options' % cname, ok, slot='helper:%s' % cname,
                message='helper call: %s' % [src(c)[:80] for c in add])
         for field in ('_private_key', '_detach', '_single_hop', '_ports', '_version'):
@@ -300,12 +331,14 @@ RULES = [
     ('R14.2', 'key custody: DiscardPK => nothing stored, generated key retained, supplied key only prefixed', lambda run: None),
     ('R14.3', 'flag table: flags sent == requested options for all 64 option combinations; Port= / ClientAuth= item construction', lambda run: None),
     ('R14.4', "address = ServiceID + '.onion'; every remove() sends DEL_ONION for that address", r14_4),
+    ('R14.6', 'one processed mapping per accepted port entry (path enumeration of one iteration of _validate_ports)', r14_6),
     ('R14.5', 'options flow unchanged from create() to the service object and the helper', r14_5),
 ]
 
 from ..selftest import M  # noqa: E402
 F = 'txtorcon/onion.py'
 MUTANTS = [
+    M('unix-pair-dropped', F, "                if local.startswith('unix:/'):\n                    pass\n                else:", "                if local.startswith('unix:/'):\n                    continue\n                else:", ['R14.6']),
     M('second-command', F, "    raw_res = yield config.tor_protocol.queue_command(cmd)\n", "    raw_res = yield config.tor_protocol.queue_command(cmd)\n    if onion._detach:\n        raw_res = yield config.tor_protocol.queue_command(cmd)\n", ['R14.1']),
     M('crlf-check-after', F, "    if '\\r' in keystring or '\\n' in keystring:\n        raise ValueError(\n            \"No newline or return characters allowed in key blobs\"\n        )\n", "", ['R14.1']),
     M('crlf-only-lf', F, "    if '\\r' in keystring or '\\n' in keystring:", "    if '\\n' in keystring:", ['R14.1']),
